@@ -235,6 +235,8 @@ def bounded_dfxp_roundtrip(ctx, b):
             for k in range(rng.choice([1, 2])):
                 # a node-level layout is carried by a span: start-style, text, end-style nodes
                 node_l = rand_layout(rng) if rng.random() < 0.4 else None
+                if lang_l is not None and cap_l is not None and rng.random() < 0.25:
+                    node_l = lang_l            # a span back in the language's own layout, inside a caption that has another one
                 if nodes:
                     nodes.append(CaptionNode.create_break(layout_info=cap_l))
                 # ... and a node without one may sit in a styled span that has no layout either: the span's text
@@ -249,7 +251,7 @@ def bounded_dfxp_roundtrip(ctx, b):
                     nodes.append(CaptionNode.create_style(False, {"italics": True}))
                 if node_l:
                     nodes.append(CaptionNode.create_style(False, {}, layout_info=node_l))
-                expect.append((f"t{j}{k}", node_l or cap_l or lang_l))
+                expect.append((f"t{j}{k}", node_l or cap_l or lang_l, "language" if not (node_l or cap_l) else "own"))
             caps.append(Caption(j * 10 ** 6, (j + 1) * 10 ** 6, nodes, layout_info=cap_l))
         cs = CaptionSet({"en": CaptionList(caps, layout_info=lang_l)})
         fit = rng.choice([False, False, True])
@@ -260,12 +262,12 @@ def bounded_dfxp_roundtrip(ctx, b):
             back = DFXPReader(read_invalid_positioning=rng.choice([False, True])).read(out)
             got = [(nd.content, nd.layout_info) for cp in back.get_captions("en") for nd in cp.nodes
                    if nd.type_ == CaptionNode.TEXT]
-            if [t for t, _ in got] != [t for t, _ in expect]:
-                return False, {"texts": [t for t, _ in got], "expected": [t for t, _ in expect]}
-            for (t, gl), (_, el) in zip(got, expect):
+            if [t for t, _ in got] != [t for t, _, _ in expect]:
+                return False, {"texts": [t for t, _ in got], "expected": [t for t, _, _ in expect]}
+            for (t, gl), (_, el, level) in zip(got, expect):
                 if fit and el is not None:
                     src = el
-                    is_lang_level = el is lang_l and lang_l is not None
+                    is_lang_level = level == "language" and lang_l is not None
                     el = el if is_lang_level else ref_fit(el)      # div region: known finding of C13
                 want = r2(with_defaults(el))
                 if gl != want:
